@@ -668,7 +668,8 @@ class CondSelect(Statement):
             for branch in code_branches + code_default:
                 return_paths.extend(branch.return_paths())
 
-        super().__init__(returns, return_paths)
+        # without a default branch the statements after the chain are reachable
+        super().__init__(returns and default is not None, return_paths)
 
     def dump(self) -> IndentBlock:
         if self._default is not None:
